@@ -123,6 +123,7 @@ impl OneshotSender {
 //@@ type file=fe2o3-amqp-types/src/definitions/role.rs kind=enum name=Role clone
 //@@ end
 //@@ type file=fe2o3-amqp-types/src/definitions/rcv_settle_mode.rs kind=enum name=ReceiverSettleMode clone
+//@@ attr #[derive(PartialEq, Eq, Structural)]
 //@@ end
 //@@ type file=fe2o3-amqp-types/src/definitions/snd_settle_mode.rs kind=enum name=SenderSettleMode clone
 //@@ end
@@ -340,7 +341,199 @@ impl ReceiverLinkD {
             omap(*lock).dom() =~= omap(old(self).unsettled).dom(),                                                     // [C02.receiver.settled-not-re-entered] no delivery enters the unsettled map through a disposition
             forall|i: int| 0 <= i < __it1.index@ && omap(old(self).unsettled).contains_key(#[trigger] consecutive_infos@[i].delivery_tag) ==> omap(*lock)[consecutive_infos@[i].delivery_tag] == Some(state),
 //@@ end
+
+//@@ fn file=fe2o3-amqp/src/link/receiver_link.rs impl=`~impl<Tar>endpoint::ReceiverLinkforReceiverLink<Tar>` name=dispose_all
+//@@ selfmut
+//@@ ret Result<(), DispositionError>
+//@@ param writer : &mut ChanSender<LinkFrame>
+//@@ subst `let reader = self.unsettled.read();` => `let reader = &self.unsettled;` rule=R4
+//@@ subst `reader .as_ref() .map(|m| m.contains_key(&info.delivery_tag)) .unwrap_or(__E1)` => `opt_contains_or(reader, &info.delivery_tag, __E1)` rule=R15
+//@@ subst `delivery_infos.sort_by_key(|left| __E1);` => `sort_infos_by_key(&mut delivery_infos, |left: &DeliveryInfo| -> (k: u32) ensures k == left.delivery_id { __E1 });` rule=R34
+//@@ subst `delivery_infos.retain(|info| __E1);` => `retain_infos(&mut delivery_infos, |info: &DeliveryInfo| -> (b: bool) ensures b == omap(*reader).contains_key(info.delivery_tag) __E1, Ghost(omap(*reader)));` rule=R34
+//@@ subst `consecutive_chunk_indices(&delivery_infos)` => `consecutive_chunk_indices(delivery_infos.as_slice())` rule=R22
+//@@ entry
+    let ghost __infos0 = delivery_infos@;
+//@@ spec
+    ensures
+        final(self).rcv_settle_mode == old(self).rcv_settle_mode,
+        r is Ok ==> ({
+            let kept = retained_infos(sorted_infos(delivery_infos@), omap(old(self).unsettled));
+            let ci = rchunk_positions(kept);
+            let n = if kept.len() > 0 { ci.len() + 1 } else { 0 };
+            let base = old(writer).sent@.len() as int;
+            &&& rchunk_positions_ok(ci, kept)
+            &&& final(writer).sent@.len() == base + n                                                      // [C02.receiver.batch-one-disposition-per-run] a batch disposal writes one disposition per maximal run of consecutive delivery-ids (same per-delivery settle mode) among the deliveries that are still unsettled -- none for deliveries already settled or unknown, none twice
+            &&& final(writer).sent@.subrange(0, base) =~= old(writer).sent@
+            &&& forall|k: int| 0 <= k < n ==> (#[trigger] final(writer).sent@[base + k]) == LinkFrame::Disposition(Disposition {
+                    role: Role::Receiver,
+                    first: kept[rrun_bound(ci, kept.len() as int, k)].delivery_id,
+                    last: Some(kept[rrun_bound(ci, kept.len() as int, k + 1) - 1].delivery_id),
+                    settled: run_will_settle(kept[rrun_bound(ci, kept.len() as int, k)], settled, old(self).rcv_settle_mode),
+                    state: Some(state), batchable })                                                        // [C02.receiver.batch-range-covers-run] ... and run k is disposed of by first..last = the ids of exactly that run, with the outcome the application applied
+        }),
+//@@ at `let chunk_inds = consecutive_chunk_indices(` before
+        proof {
+            let srt = sorted_infos(__infos0);
+            let m = omap(old(self).unsettled);
+            assert forall|i: int, j: int| 0 <= i <= j < delivery_infos@.len() implies delivery_infos@[i].delivery_id <= delivery_infos@[j].delivery_id by {
+                if i < j { assert(retained_from(srt, m, i) < retained_from(srt, m, j)); }
+            }
+        }
+//@@ loop 0
+        invariant
+            __it0.seq() == chunk_inds@,
+            rchunk_positions_ok(chunk_inds@, delivery_infos@),
+            chunk_inds@ == rchunk_positions(delivery_infos@),
+            self.rcv_settle_mode == old(self).rcv_settle_mode,
+            prev_ind == rrun_bound(chunk_inds@, delivery_infos@.len() as int, __it0.index@),
+            writer.sent@.len() == old(writer).sent@.len() + __it0.index@,
+            writer.sent@.subrange(0, old(writer).sent@.len() as int) =~= old(writer).sent@,
+            forall|k: int| 0 <= k < __it0.index@ ==> (#[trigger] writer.sent@[old(writer).sent@.len() + k]) == LinkFrame::Disposition(Disposition {
+                    role: Role::Receiver,
+                    first: delivery_infos@[rrun_bound(chunk_inds@, delivery_infos@.len() as int, k)].delivery_id,
+                    last: Some(delivery_infos@[rrun_bound(chunk_inds@, delivery_infos@.len() as int, k + 1) - 1].delivery_id),
+                    settled: run_will_settle(delivery_infos@[rrun_bound(chunk_inds@, delivery_infos@.len() as int, k)], settled, old(self).rcv_settle_mode),
+                    state: Some(state), batchable }),
+//@@ end
 }
+
+/// the settle decision of a run: the explicit `settled` argument, else the first delivery's own rcv-settle-mode, else the link's
+pub open spec fn run_will_settle(first: DeliveryInfo, settled: Option<bool>, link_mode: ReceiverSettleMode) -> bool {
+    if settled is Some { settled->Some_0 } else { (if first.rcv_settle_mode is Some { first.rcv_settle_mode->Some_0 } else { link_mode }) is First }
+}
+pub open spec fn ids_ascending(s: Seq<DeliveryInfo>) -> bool { forall|i: int, j: int| 0 <= i <= j < s.len() ==> s[i].delivery_id <= s[j].delivery_id }
+/// a new run starts at p: the id is not the successor of the previous one, or the per-delivery settle mode changes
+pub open spec fn run_break(s: Seq<DeliveryInfo>, p: int) -> bool { !(s[p].delivery_id - s[p - 1].delivery_id == 1 && s[p].rcv_settle_mode == s[p - 1].rcv_settle_mode) }
+pub open spec fn rcp_upto(s: Seq<DeliveryInfo>, w: int) -> Seq<usize>
+    decreases w,
+{
+    if w <= 0 { Seq::<usize>::empty() } else {
+        let prev = rcp_upto(s, w - 1);
+        if run_break(s, w) { prev.push(w as usize) } else { prev }
+    }
+}
+/// where a new run starts: positions p in 1..len at which the id is not the successor of the previous one OR the per-delivery settle mode changes
+#[verifier::opaque]
+pub open spec fn rchunk_positions(s: Seq<DeliveryInfo>) -> Seq<usize> { rcp_upto(s, s.len() - 1) }
+pub open spec fn rchunk_positions_ok(ci: Seq<usize>, s: Seq<DeliveryInfo>) -> bool {
+    &&& (forall|k: int| 0 <= k < ci.len() ==> 0 < #[trigger] ci[k] < s.len())
+    &&& (forall|i: int, j: int| 0 <= i < j < ci.len() ==> ci[i] < ci[j])
+    &&& (forall|p: int| 0 < p < s.len() ==> (ci.contains(p as usize) <==> #[trigger] run_break(s, p)))
+}
+pub open spec fn rrun_bound(ci: Seq<usize>, len: int, k: int) -> int {
+    if k <= 0 { 0 } else if k <= ci.len() { ci[k - 1] as int } else { len }
+}
+pub proof fn lemma_rcp_upto(s: Seq<DeliveryInfo>, w: int)
+    requires 0 <= w < s.len() || (w == 0 && s.len() == 0), w <= usize::MAX,
+    ensures
+        forall|k: int| 0 <= k < rcp_upto(s, w).len() ==> 0 < #[trigger] rcp_upto(s, w)[k] <= w,
+        forall|i: int, j: int| 0 <= i < j < rcp_upto(s, w).len() ==> rcp_upto(s, w)[i] < rcp_upto(s, w)[j],
+        forall|p: int| 0 < p <= w ==> (rcp_upto(s, w).contains(p as usize) <==> #[trigger] run_break(s, p)),
+    decreases w,
+{
+    if w > 0 {
+        lemma_rcp_upto(s, w - 1);
+        let prev = rcp_upto(s, w - 1);
+        let cur = rcp_upto(s, w);
+        if run_break(s, w) {
+            assert(cur == prev.push(w as usize));
+            assert(cur[prev.len() as int] == w as usize);
+        }
+        assert forall|p: int| 0 < p <= w implies (cur.contains(p as usize) <==> #[trigger] run_break(s, p)) by {
+            if p < w {
+                if prev.contains(p as usize) { let k = choose|k: int| 0 <= k < prev.len() && prev[k] == p as usize; assert(cur[k] == p as usize); }
+                if cur.contains(p as usize) { let k = choose|k: int| 0 <= k < cur.len() && cur[k] == p as usize; if k < prev.len() { assert(prev[k] == p as usize); } }
+            } else {
+                if cur.contains(p as usize) { let k = choose|k: int| 0 <= k < cur.len() && cur[k] == p as usize; if k < prev.len() { assert(prev[k] <= w - 1); } }
+            }
+        }
+    }
+}
+/// inside one run the ids are contiguous: the range first..last of its disposition names exactly the run's deliveries  [C02.receiver.run-is-contiguous]
+pub proof fn lemma_run_is_contiguous(s: Seq<DeliveryInfo>, ci: Seq<usize>, k: int, j: int)
+    requires rchunk_positions_ok(ci, s), 0 <= k <= ci.len(), 0 < s.len() <= usize::MAX,
+        rrun_bound(ci, s.len() as int, k) <= j < rrun_bound(ci, s.len() as int, k + 1),
+    ensures
+        s[j].delivery_id == s[rrun_bound(ci, s.len() as int, k)].delivery_id + (j - rrun_bound(ci, s.len() as int, k)),
+        s[j].rcv_settle_mode == s[rrun_bound(ci, s.len() as int, k)].rcv_settle_mode,
+    decreases j,
+{
+    let b = rrun_bound(ci, s.len() as int, k);
+    if j > b {
+        // j is not a chunk position: it lies strictly between two neighbouring boundaries
+        if ci.contains(j as usize) {
+            let q = choose|q: int| 0 <= q < ci.len() && ci[q] == j as usize;
+            if q <= k - 1 {
+                if q < k - 1 { assert(ci[q] < ci[k - 1]); }
+                assert(ci[q] <= b);
+            } else {
+                assert(k < ci.len());
+                if q > k { assert(ci[k] < ci[q]); }
+                assert(ci[q] >= rrun_bound(ci, s.len() as int, k + 1));
+            }
+            assert(false);
+        }
+        assert(0 < j < s.len());
+        assert(!run_break(s, j));
+        lemma_run_is_contiguous(s, ci, k, j - 1);
+    }
+}
+
+//@@ trusted R34 helpers: `v.sort_by_key(KEY)` and `v.retain(PRED)` are written as calls of stand-ins that take the closure as the code has it (Verus checks the closure body against the stated key / predicate): sort_infos_by_key yields sorted_infos(old) -- a permutation of the input in ascending key order; retain_infos yields retained_infos(old, map) -- the elements satisfying the predicate, in their original order (std: `retain` visits each element once in order and preserves the order of the retained elements)
+pub uninterp spec fn sorted_infos(s: Seq<DeliveryInfo>) -> Seq<DeliveryInfo>;
+pub uninterp spec fn retained_infos(s: Seq<DeliveryInfo>, m: Map<DeliveryTag, Option<DeliveryState>>) -> Seq<DeliveryInfo>;
+pub uninterp spec fn retained_from(s: Seq<DeliveryInfo>, m: Map<DeliveryTag, Option<DeliveryState>>, j: int) -> int;
+#[verifier::external_body]
+pub fn sort_infos_by_key<F: Fn(&DeliveryInfo) -> u32>(v: &mut Vec<DeliveryInfo>, f: F)
+    requires forall|x: DeliveryInfo, k: u32| call_ensures(f, (&x,), k) ==> k == x.delivery_id, forall|x: DeliveryInfo| call_requires(f, (&x,)),
+    ensures final(v)@ == sorted_infos(old(v)@), final(v)@.to_multiset() == old(v)@.to_multiset(), ids_ascending(final(v)@),
+{ unimplemented!() }
+#[verifier::external_body]
+pub fn retain_infos<F: Fn(&DeliveryInfo) -> bool>(v: &mut Vec<DeliveryInfo>, f: F, Ghost(m): Ghost<Map<DeliveryTag, Option<DeliveryState>>>)
+    requires forall|x: DeliveryInfo, b: bool| call_ensures(f, (&x,), b) ==> b == m.contains_key(x.delivery_tag), forall|x: DeliveryInfo| call_requires(f, (&x,)),
+    ensures
+        final(v)@ == retained_infos(old(v)@, m),
+        final(v)@.len() <= old(v)@.len(),
+        forall|j: int| 0 <= j < final(v)@.len() ==> 0 <= #[trigger] retained_from(old(v)@, m, j) < old(v)@.len() && final(v)@[j] == old(v)@[retained_from(old(v)@, m, j)] && m.contains_key(final(v)@[j].delivery_tag),
+        forall|i: int, j: int| 0 <= i < j < final(v)@.len() ==> retained_from(old(v)@, m, i) < retained_from(old(v)@, m, j),
+        forall|k: int| 0 <= k < old(v)@.len() && m.contains_key(old(v)@[k].delivery_tag) ==> exists|j: int| 0 <= j < final(v)@.len() && retained_from(old(v)@, m, j) == k,
+{ unimplemented!() }
+#[verifier::external_body]
+pub fn opt_contains_or<K, V>(g: &Option<OrderedMap<K, V>>, k: &K, dflt: bool) -> (r: bool)
+    ensures r == (match *g { Some(m) => m@.contains_key(*k), None => dflt }),     // `g.as_ref().map(|m| m.contains_key(k)).unwrap_or(dflt)`
+{ unimplemented!() }
+#[verifier::external_body]
+pub fn slice_window2<T>(s: &[T], w: usize) -> (r: &[T])
+    requires w + 2 <= s@.len(),
+    ensures r@ == s@.subrange(w as int, w + 2),
+{ &s[w..w + 2] }
+
+//@@ fn file=fe2o3-amqp/src/util/mod.rs name=is_consecutive
+//@@ spec
+    requires *left <= *right,        // (the subtraction: callers pass ids in ascending order)
+    ensures r == (*right - *left == 1),
+//@@ end
+
+//@@ fn file=fe2o3-amqp/src/link/receiver_link.rs name=consecutive_chunk_indices
+//@@ attr #[verifier::spinoff_prover]
+//@@ subst `delivery_infos .windows(2) .enumerate() .filter_map(|(__E1, __E2)| __E3) .collect()` => `{ let mut __fm_out: Vec<usize> = Vec::new(); let mut __fm_w: usize = 0; while __fm_w < delivery_infos.len().saturating_sub(1) { let __E1 = __fm_w; let __E2 = slice_window2(delivery_infos, __fm_w); let __fm_o: Option<usize> = __E3; if let Some(__fm_v) = __fm_o { __fm_out.push(__fm_v); } __fm_w += 1; } proof { reveal(rchunk_positions); lemma_rcp_upto(delivery_infos@, __fm_w as int); } __fm_out }` rule=R34
+//@@ spec
+    requires ids_ascending(delivery_infos@),   // is_consecutive computes right - left; dispose_all sorts first
+    ensures
+        r@ == rchunk_positions(delivery_infos@),                     // [C02.receiver.run-boundaries] the batch is cut exactly where the next id is not the successor of the previous one or the per-delivery settle mode changes
+        rchunk_positions_ok(r@, delivery_infos@),
+//@@ loop 0
+        invariant
+            delivery_infos@.len() >= 1 ==> __fm_w <= delivery_infos@.len() - 1, delivery_infos@.len() == 0 ==> __fm_w == 0,
+            ids_ascending(delivery_infos@),
+            __fm_out@ == rcp_upto(delivery_infos@, __fm_w as int),                     // [C02.receiver.run-boundaries]
+        decreases delivery_infos@.len() - __fm_w,
+//@@ loopstart 0
+            proof {
+                assert(delivery_infos@.subrange(__fm_w as int, __fm_w + 2)[0] == delivery_infos@[__fm_w as int]);
+                assert(delivery_infos@.subrange(__fm_w as int, __fm_w + 2)[1] == delivery_infos@[__fm_w + 1]);
+            }
+//@@ end
 
 // ---------------------------------------------------------------------------------------------
 // ReceiverLink::on_complete_transfer (C09 credit enforcement, C02 unsettled bookkeeping)
